@@ -179,6 +179,25 @@ def deliverTo (st : NSt) (src dst : NAddr) (data : Bytes) (implObs : String) : N
       finishStep st port c views ""
   | _ => (st, "lost")
 
+/-- The order in which `create_node_info` lists the peers is the iteration order of a `HashMap`: observed, not predicted.  It is
+    visible only where node information travels unencrypted (a plain session): the association list of the model is brought into the
+    order of the first such datagram the implementation emitted in this step (a permutation of the list; no entry is changed). -/
+def hashOrder (n : Node) (outs : List (NAddr × NAddr × Bytes)) : Node :=
+  let plainInfo := outs.findSome? (fun (_, dst, b) =>
+    match Node.lookupA n.peers dst, b with
+    | some p, 1 :: body => if p.crypto.unencrypted then decodeNodeInfo body else none
+    | _, _ => none)
+  match plainInfo with
+  | none => n
+  | some info =>
+    -- an entry of the observed list stands for the peer with that node id and those addresses (several peers may carry the same node id)
+    let listed := info.peers.foldl (fun (acc : List (NAddr × Peer)) e =>
+      let free := n.peers.filter (fun x => !acc.any (fun y => y.1 = x.1))
+      match (free.find? (fun (_, p) => some p.nodeId = e.nodeId && p.addrs = e.addrs)).orElse (fun _ => free.find? (fun (_, p) => some p.nodeId = e.nodeId)) with
+      | some x => acc ++ [x]
+      | none => acc) []
+    { n with peers := listed ++ n.peers.filter (fun x => !listed.any (fun y => y.1 = x.1)) }
+
 def nodeStepNew (st : NSt) (port : String) (fs : List String) (implObs : String) : Option (NSt × String × String) :=
     match port.toNat?, (kvField fs "key").bind String.toNat?, kvField fs "trust", (kvField fs "algos").bind parseAlgos,
           (kvField fs "pt").bind String.toNat?, kvField fs "ka", (kvField fs "st").bind String.toNat?, (kvField fs "claims").bind parseRanges,
@@ -213,6 +232,20 @@ def nodeStepReplay (st : NSt) (args : List String) (implObs : String) : Option (
         | _, _ => some (st, "bad-op", "-")
     | _, _, _ => some (st, "bad-op", "-")
   | [] => some (st, "bad-op", "-")
+
+/-- `<idN>` inside a hex text stands for the node id of node N (all zero if there is no such node) -/
+def substIds (st : NSt) (hex : String) : String :=
+  match hex.splitOn "<id" with
+  | [] => hex
+  | first :: rest =>
+    rest.foldl (fun acc piece =>
+      match piece.splitOn ">" with
+      | num :: tl =>
+        let id := match num.toNat?.bind (getNode st) with
+          | some n => n.nodeId
+          | none => List.replicate 16 0
+        acc ++ Bytes.toHex id ++ ">".intercalate tl
+      | [] => acc) first
 
 def nodeStep (st : NSt) (t : List String) (implObs : String) : Option (NSt × String × String) :=
   match t with
@@ -257,7 +290,7 @@ def nodeStep (st : NSt) (t : List String) (implObs : String) : Option (NSt × St
     | none => some (st, "bad-op", "-")
   | ["nseal", i, dst, hex] =>
     -- a key holder seals a raw plaintext (no type byte; possibly empty) with the node's session for `dst`
-    match i.toNat?, parseNAddr dst, (if hex = "-" then some [] else Bytes.ofHex hex) with
+    match i.toNat?, parseNAddr dst, (if hex = "-" then some [] else Bytes.ofHex (substIds st hex)) with
     | some port, some d, some plain =>
       match getNode st port with
       | none => some (st, "bad-op", "-")
@@ -318,7 +351,7 @@ def nodeStep (st : NSt) (t : List String) (implObs : String) : Option (NSt × St
         let (ires, istate) := splitObs implObs
         let views := parseSessions istate
         let o := mkOracle (parseOuts ires) views (1000 + port)
-        let (s, obs) := finishStep st port (housekeep st.env o n st.now) views "ok "
+        let (s, obs) := finishStep st port (housekeep st.env o (hashOrder n (parseOuts ires)) st.now) views "ok "
         some (s, obs, "-")
     | none => some (st, "bad-op", "-")
   | op :: k :: muts =>
